@@ -1,11 +1,11 @@
-// c02s: drives the REAL generated archetypes of dqueue, pbkvs and raftkvs attempt by attempt (harness/steplib: real
+// c02s: drives the REAL generated archetypes of dqueue, pbkvs, raftkvs, proxy and replicatedkv attempt by attempt (harness/steplib: real
 // MPCalContext.Run loop, fairness-counter gate, trace recorder, spec-state resources implementing the specs' mapping
 // macros), so that props/c02.py can let the REGENERATED Go model (tools/go2coq + coq/C02/Sem.v symex_go + Bind_<sys>.v)
 // predict every observed attempt. The set-ups of dqueue and pbkvs are copies of harness/cmd/c16/dqueue.go and
 // harness/cmd/c14/main.go (macros written over steplib.Access exactly as the specs define them); raftkvs uses
 // harness/cmd/c08/raftstep.NewSession (network queue kept as a sequence there: props/c02.py turns it into the spec's bag).
 //
-// stdin : one JSON case per line  {"id":..,"system":"dqueue|pbkvs|raftkvs","cfg":{..ints..},"sched":[["proc",[k,..]],..]}
+// stdin : one JSON case per line  {"id":..,"system":"dqueue|pbkvs|raftkvs|proxy|replicatedkv","cfg":{..ints..},"sched":[["proc",[k,..]],..]}
 // stdout: one JSON line per case  {"id","system","procs":[..],"pcs0":{proc:label},"init":STATE,"steps":[steplib.Obs..],"err"}
 // (the same shape as harness/cmd/c16, whose binary serves the other small systems in the thorough tier)
 package main
@@ -20,6 +20,8 @@ import (
 	"github.com/DistCompiler/pgo/distsys/tla"
 	"github.com/DistCompiler/pgo/systems/dqueue"
 	"github.com/DistCompiler/pgo/systems/pbkvs"
+	"github.com/DistCompiler/pgo/systems/proxy"
+	"github.com/DistCompiler/pgo/systems/replicatedkv"
 
 	"verifharness/cmd/c08/raftstep"
 	"verifharness/steplib"
@@ -213,6 +215,137 @@ func buildPbkvs(cfg map[string]int) (*steplib.System, func(), error) {
 	return sys, func() {}, nil
 }
 
+// ---------------------------------------------------------------- proxy (mappings exactly as proxy.tla instantiates them)
+
+// mapping macro PracticalFD { read { if ($variable = FALSE) { either { yield TRUE; } or { yield FALSE; }; } else { yield $variable; }; }
+//                             write { yield $value; } }      -- the either is a real, recorded choice (Access.Choose)
+var practicalFD = steplib.Macro{
+	Read: func(a *steplib.Access) (tla.Value, error) {
+		v := a.Var()
+		if !v.AsBool() {
+			if a.Choose("PracticalFD.read", 2) == 0 {
+				return tla.ModuleTRUE, nil
+			}
+			return tla.ModuleFALSE, nil
+		}
+		return v, nil
+	},
+	Write: func(a *steplib.Access, val tla.Value) error { a.SetVar(val); return nil },
+}
+
+// mapping macro Requests { read { with (value = $variable) { $variable := $variable + 1; yield value; } }  write { assert(FALSE); ... } }
+var requests = steplib.Macro{
+	Read: func(a *steplib.Access) (tla.Value, error) {
+		v := a.Var()
+		a.SetVar(tla.ModulePlusSymbol(v, num(1)))
+		return v, nil
+	},
+	Write: func(a *steplib.Access, val tla.Value) error { return errAssert("FALSE (write through Requests)") },
+}
+
+// proxy.tla: network = [id \in NODE_SET, typ \in MSG_TYP_SET |-> [queue |-> <<>>, enabled |-> TRUE]], fd = [id \in NODE_SET |-> FALSE],
+// output = <<>>; AClient's second parameter is the value 0 mapped via Requests: one spec variable input<c> per client here
+// (props/c02.py presents it to the model as the client's local `input`).
+func buildProxy(cfg map[string]int) (*steplib.System, func(), error) {
+	ns, nc := cfg["NUM_SERVERS"], cfg["NUM_CLIENTS"]
+	p := ns + nc + 1
+	var netKV, fdKV []tla.Value
+	for i := 1; i <= p; i++ {
+		for t := 1; t <= 4; t++ {
+			netKV = append(netKV, tla.MakeTuple(num(i), num(t)), steplib.Rec("queue", tla.MakeTuple(), "enabled", tla.ModuleTRUE))
+		}
+		fdKV = append(fdKV, num(i), tla.ModuleFALSE)
+	}
+	init := map[string]tla.Value{"network": steplib.Fn(netKV...), "fd": steplib.Fn(fdKV...), "output": tla.MakeTuple()}
+	for c := ns + 1; c <= ns+nc; c++ {
+		init[fmt.Sprintf("input%d", c)] = num(0)
+	}
+	sys := steplib.NewSystem(init)
+	consts := distsys.EnsureMPCalContextConfigs(
+		distsys.DefineConstantValue("NUM_SERVERS", num(ns)),
+		distsys.DefineConstantValue("NUM_CLIENTS", num(nc)),
+		distsys.DefineConstantValue("EXPLORE_FAIL", tla.MakeBool(cfg["EXPLORE_FAIL"] != 0)),
+		distsys.DefineConstantValue("CLIENT_RUN", tla.MakeBool(cfg["CLIENT_RUN"] != 0)))
+	netB := steplib.Binding{Param: "net", Var: "network", Depth: 1, Macro: reliableFIFOLink}
+	fdB := steplib.Binding{Param: "fd", Var: "fd", Depth: 1, Macro: practicalFD}
+	sys.AddProc("proxy", num(p), proxy.AProxy, []steplib.Binding{netB, fdB}, consts)
+	for j := 1; j <= ns; j++ {
+		sys.AddProc(fmt.Sprintf("s%d", j), num(j), proxy.AServer, []steplib.Binding{
+			netB, {Param: "netEnabled", Var: "network", Depth: 1, Macro: networkToggle}, fdB}, consts)
+	}
+	for c := ns + 1; c <= ns+nc; c++ {
+		sys.AddProc(fmt.Sprintf("c%d", c), num(c), proxy.AClient, []steplib.Binding{
+			netB, {Param: "input", Var: fmt.Sprintf("input%d", c), Depth: 0, Macro: requests},
+			{Param: "output", Var: "output", Depth: 0, Macro: steplib.Identity}}, consts)
+	}
+	return sys, func() {}, nil
+}
+
+// ---------------------------------------------------------------- replicatedkv (mappings exactly as replicated_kv.tla instantiates them)
+
+// replicated_kv.tla: replicasNetwork = [id \in ReplicaSet |-> <<>>], clientMailboxes = [id \in allClients |-> <<>>], cid = 0, out = 0,
+// clocks = [c \in ClientSet |-> 0]; per replica kv = [k \in KeySpace |-> NULL] (spec variable kv<i>, presented to the model as the
+// replica's local kvLocal). All CONSTANTs are the integers of the walk configuration.
+func buildReplicatedkv(cfg map[string]int) (*steplib.System, func(), error) {
+	nr, nc, b := cfg["NUM_REPLICAS"], cfg["NUM_CLIENTS"], cfg["BUFFER_SIZE"]
+	getKey, putKey, null := num(cfg["GET_KEY"]), num(cfg["PUT_KEY"]), num(cfg["NULL"])
+	var reps, allClients, clientSet []tla.Value
+	for i := 0; i < nr; i++ {
+		reps = append(reps, num(i))
+	}
+	for i := nr; i < nr+4*nc; i++ {
+		allClients = append(allClients, num(i))
+	}
+	for i := nr; i < nr+nc; i++ {
+		clientSet = append(clientSet, num(i))
+	}
+	init := map[string]tla.Value{
+		"replicasNetwork": steplib.ConstFn(reps, tla.MakeTuple()),
+		"clientMailboxes": steplib.ConstFn(allClients, tla.MakeTuple()),
+		"clocks":          steplib.ConstFn(clientSet, num(0)),
+		"cid":             num(0),
+		"out":             num(0),
+	}
+	for i := 0; i < nr; i++ {
+		init[fmt.Sprintf("kv%d", i)] = steplib.Fn(getKey, null, putKey, null)
+	}
+	sys := steplib.NewSystem(init)
+	idMacro := func(order int) steplib.Macro { // read { yield self - (NUM_CLIENTS * ORDER) }  write { assert(FALSE) }
+		return steplib.Macro{
+			Read:  func(a *steplib.Access) (tla.Value, error) { return tla.ModuleMinusSymbol(a.Self(), num(nc*order)), nil },
+			Write: func(a *steplib.Access, v tla.Value) error { return errAssert("FALSE (write to a client id)") },
+		}
+	}
+	var cs []distsys.MPCalContextConfigFn
+	for _, k := range []string{"NUM_REPLICAS", "NUM_CLIENTS", "BUFFER_SIZE", "DISCONNECT_MSG", "GET_MSG", "PUT_MSG", "NULL_MSG",
+		"GET_RESPONSE", "PUT_RESPONSE", "NULL", "GET_KEY", "PUT_KEY", "PUT_VALUE"} {
+		cs = append(cs, distsys.DefineConstantValue(k, num(cfg[k])))
+	}
+	consts := distsys.EnsureMPCalContextConfigs(cs...)
+	repNet := steplib.Binding{Param: "replicas", Var: "replicasNetwork", Depth: 1, Macro: steplib.FIFOLink(b)}
+	cliNet := steplib.Binding{Param: "clients", Var: "clientMailboxes", Depth: 1, Macro: steplib.FIFOLink(b)}
+	clock := steplib.Binding{Param: "clock", Var: "clocks", Depth: 1, Macro: steplib.Identity}
+	outB := steplib.Binding{Param: "outside", Var: "out", Depth: 0, Macro: steplib.Identity}
+	for i := 0; i < nr; i++ {
+		sys.AddProc(fmt.Sprintf("rep%d", i), num(i), replicatedkv.AReplica, []steplib.Binding{
+			cliNet, repNet, {Param: "kv", Var: fmt.Sprintf("kv%d", i), Depth: 1, Macro: steplib.Identity}}, consts)
+	}
+	spin := distsys.EnsureArchetypeValueParam("spin", tla.ModuleTRUE)
+	for c := 0; c < nc; c++ {
+		sys.AddProc(fmt.Sprintf("get%d", c), num(nr+c), replicatedkv.Get, []steplib.Binding{
+			{Param: "clientId", Var: "cid", Depth: 0, Macro: idMacro(0)}, repNet, cliNet, clock, outB}, consts, spin,
+			distsys.EnsureArchetypeValueParam("key", getKey))
+		sys.AddProc(fmt.Sprintf("put%d", c), num(nr+nc+c), replicatedkv.Put, []steplib.Binding{
+			{Param: "clientId", Var: "cid", Depth: 0, Macro: idMacro(1)}, repNet, cliNet, clock, outB}, consts, spin,
+			distsys.EnsureArchetypeValueParam("key", putKey), distsys.EnsureArchetypeValueParam("value", num(cfg["PUT_VALUE"])))
+		sys.AddProc(fmt.Sprintf("dis%d", c), num(nr+2*nc+c), replicatedkv.Disconnect, []steplib.Binding{
+			{Param: "clientId", Var: "cid", Depth: 0, Macro: idMacro(2)}, repNet, clock}, consts)
+		sys.AddProc(fmt.Sprintf("clk%d", c), num(nr+3*nc+c), replicatedkv.ClockUpdate, []steplib.Binding{
+			{Param: "clientId", Var: "cid", Depth: 0, Macro: idMacro(3)}, repNet, clock}, consts, spin)
+	}
+	return sys, func() {}, nil
+}
+
 // ---------------------------------------------------------------- raftkvs (cmd/c08/raftstep)
 
 func buildRaftkvs(cfg map[string]int) (*steplib.System, func(), error) {
@@ -249,6 +382,10 @@ func runCase(k kase) (res result) {
 		sys, closeFn, err = buildDqueue(k.Cfg)
 	case "pbkvs":
 		sys, closeFn, err = buildPbkvs(k.Cfg)
+	case "proxy":
+		sys, closeFn, err = buildProxy(k.Cfg)
+	case "replicatedkv":
+		sys, closeFn, err = buildReplicatedkv(k.Cfg)
 	case "raftkvs":
 		sys, closeFn, err = buildRaftkvs(k.Cfg)
 		started = true // NewSession starts the system
